@@ -483,6 +483,13 @@ class GroupScenario:
         if live:
             await asyncio.wait(live, timeout=p.get("stop_bound", 30.0))
         self.hung = [i for i, t in enumerate(tasks) if i not in self.killed and not t.done()]
+        if self.hung and __import__("os").environ.get("VF_DEBUG_HUNG"):
+            for i in self.hung:
+                co = tasks[i].get_coro()
+                while co is not None and hasattr(co, "cr_frame"):
+                    print("HUNG", i, co.cr_code.co_filename, co.cr_frame.f_lineno if co.cr_frame else None, co.cr_code.co_name)
+                    co = co.cr_await
+                print("HUNG-ON", i, co)
         envt.cancel()
 
     def snapshot(self):
